@@ -173,3 +173,125 @@ Proof.
       * apply HO. congruence.
   - cbn [s_ann with_cache a_cache a_owner]. split; reflexivity.
 Qed.
+
+(* ------------------------------------------------------------------------------------------------ structural edits *)
+
+(* index_consistent: the stored hash, when there is one, is the hash of SOME (structure, id vector) pair - the model
+   as it was when the list was last built - and the list is exactly the list of that pair; and the list belongs to
+   the stored model.  No condition on identifiers, and structural edits are allowed. *)
+Definition IdxPart (c : cfg) (a : astate) : Prop :=
+  a_hash a = None \/
+  exists st0 ids0, a_hash a = Some (hash_string c st0 ids0) /\ a_cache a = build_cache c st0 ids0.
+Definition index_consistent (c : cfg) (ms : mstate) : Prop := IdxPart c (m_ann ms) /\ OwnInv (m_ann ms).
+
+Lemma update_idx : forall c st s, IdxPart c (s_ann s) -> IdxPart c (s_ann (update c st s)).
+Proof.
+  intros c st s H. unfold update. destruct (negb (a_has_model (s_ann s))); [left; reflexivity|].
+  destruct (opt_str_eqb _ _); [assumption|]. right. exists st, (s_ids s). split; reflexivity.
+Qed.
+Lemma set_model_idx : forall c st s, IdxPart c (s_ann (set_model c st s)).
+Proof. intros. unfold set_model. apply update_idx. left; reflexivity. Qed.
+
+Lemma step_idx : forall c st s o, fx_refresh c = true -> IdxPart c (s_ann s) -> IdxPart c (s_ann (fst (step c st s o))).
+Proof.
+  intros c st s o Hf H. rewrite step_fst. destruct o; unfold step_state.
+  1: apply set_model_idx.
+  1: exact H.
+  1: { unfold assign_all. destruct (a_has_model (s_ann s)); cbn [fst]; [|exact H].
+       left. rewrite assign_visits_hash. unfold pre_assign. rewrite Hf. reflexivity. }
+  1: { unfold assign_type. destruct (a_has_model (s_ann s)); cbn [fst]; [|exact H]. apply set_model_idx. }
+  1: { unfold assign_item. destruct (a_has_model (s_ann s)); [|exact H]. rewrite Hf.
+       destruct (make_unique _ _) as [[id n] ok]. left. reflexivity. }
+  1: { unfold clear_all. destruct (a_has_model (s_ann s)); [|exact H]. left. reflexivity. }
+  all: try (apply update_idx; exact H).
+  exact H.
+Qed.
+
+Lemma mstep_idx : forall c sts ms o, fx_refresh c = true -> index_consistent c ms -> index_consistent c (fst (mstep c sts ms o)).
+Proof.
+  intros c sts ms o Hf [HI HO]. destruct o as [k|k slot id| |k j|o]; unfold mstep, index_consistent.
+  - cbn [fst m_ann]. split; [apply set_model_idx|].
+    unfold set_model. apply update_own. apply hash_none_own. reflexivity.
+  - cbn [fst m_ann]. split; assumption.
+  - cbn [fst m_ann]. split; assumption.
+  - cbn [fst m_ann]. split; assumption.
+  - set (k := a_model (m_ann ms)). set (s := {| s_ids := nth_ids (m_ids ms) k; s_ann := m_ann ms |}).
+    pose proof (step_idx c (st_of sts (m_st ms) k) s o Hf HI) as I1.
+    pose proof (step_own c (st_of sts (m_st ms) k) s o Hf HO) as O1.
+    destruct (step c (st_of sts (m_st ms) k) s o) as [s' r]. cbn [fst m_ann] in *. split; assumption.
+Qed.
+
+Theorem mrun_index_consistent : forall c sts h idss stx,
+  fx_refresh c = true -> index_consistent c (fst (mrun c sts (minit idss stx) h)).
+Proof.
+  intros c sts h idss stx Hf.
+  assert (G : forall h ms, index_consistent c ms -> index_consistent c (fst (mrun c sts ms h))).
+  { induction h0 as [|o h0 IH]; intros ms H; [exact H|]. rewrite mrun_cons. apply IH, mstep_idx; assumption. }
+  apply G. split; [left; reflexivity | apply hash_none_own; reflexivity].
+Qed.
+
+(* decidable form of assumption A-hash for one pair of models: equal serialised strings imply equal id lists *)
+Definition entry_eqb (x y : entry) : bool :=
+  String.eqb (e_id x) (e_id y) && kind_eqb (e_kind x) (e_kind y) && Nat.eqb (e_slot x) (e_slot y)
+  && Nat.eqb (e_a x) (e_a y) && Nat.eqb (e_b x) (e_b y).
+Fixpoint cache_eqb (l l' : list entry) : bool :=
+  match l, l' with
+  | [], [] => true
+  | x :: r, y :: r' => entry_eqb x y && cache_eqb r r'
+  | _, _ => false
+  end.
+Lemma entry_eqb_eq : forall x y, entry_eqb x y = true -> x = y.
+Proof.
+  intros [i k s a b] [i' k' s' a' b'] H. unfold entry_eqb in H. cbn in H.
+  repeat (apply andb_true_iff in H; destruct H as [H ?]).
+  apply String.eqb_eq in H. apply kind_eqb_eq in H3. apply Nat.eqb_eq in H2, H1, H0. subst. reflexivity.
+Qed.
+Lemma cache_eqb_eq : forall l l', cache_eqb l l' = true -> l = l'.
+Proof.
+  induction l as [|x r IH]; destruct l' as [|y r']; simpl; intro H; try discriminate; [reflexivity|].
+  apply andb_true_iff in H. destruct H as [H1 H2]. rewrite (entry_eqb_eq _ _ H1), (IH _ H2). reflexivity.
+Qed.
+Definition hash_separates (c : cfg) (st0 : structure) (ids0 : list string) (st : structure) (ids : list string) : bool :=
+  negb (String.eqb (hash_string c st0 ids0) (hash_string c st ids))
+  || cache_eqb (build_cache c st0 ids0) (build_cache c st ids).
+
+(* what a new annotator that is handed the model computes *)
+Definition fresh_cache (c : cfg) (st : structure) (ids : list string) : list entry :=
+  a_cache (s_ann (set_model c st (init ids))).
+Lemma fresh_cache_eq : forall c st ids, fresh_cache c st ids = build_cache c st ids.
+Proof. intros. unfold fresh_cache. exact (proj1 (set_model_rebuilds c st (init ids))). Qed.
+
+(* For ANY list of operations - setModel of any model, id edits on any model, structural edits of any model
+   (MStruct: add / remove / replace of entities = the model has another structure from now on), the stored model
+   dying, assign*, clearAllIds, look-ups, prints - and ANY identifiers: after the rebuild step ([update], the first
+   thing every look-up does) the index is the index a fresh annotator builds from the model as it is now, and it
+   belongs to the stored model, PROVIDED the hash separates the model the list was last built from and the model
+   as it is now (decidable premise [hash_separates], assumption A-hash for that one pair). *)
+Theorem lookups_after_any_ops : forall c sts h idss stx,
+  fx_refresh c = true ->
+  let ms := fst (mrun c sts (minit idss stx) h) in
+  let k := a_model (m_ann ms) in
+  let st := st_of sts (m_st ms) k in
+  let ids := nth_ids (m_ids ms) k in
+  a_has_model (m_ann ms) = true ->
+  (forall st0 ids0, a_hash (m_ann ms) = Some (hash_string c st0 ids0) -> a_cache (m_ann ms) = build_cache c st0 ids0 ->
+                    hash_separates c st0 ids0 st ids = true) ->
+  let s := update c st {| s_ids := ids; s_ann := m_ann ms |} in
+  a_cache (s_ann s) = fresh_cache c st ids /\ a_owner (s_ann s) = k /\
+  (forall id, item_of (a_cache (s_ann s)) id = item_of (fresh_cache c st ids) id) /\
+  ids_of (a_cache (s_ann s)) = ids_of (fresh_cache c st ids).
+Proof.
+  intros c sts h idss stx Hf ms k st ids Hm Hsep s.
+  assert (Main : a_cache (s_ann s) = fresh_cache c st ids /\ a_owner (s_ann s) = k).
+  { rewrite fresh_cache_eq.
+    destruct (mrun_index_consistent c sts h idss stx Hf) as [HI HO]. fold ms in HI, HO.
+    subst s. unfold update. cbn [s_ann s_ids]. rewrite Hm. cbn [negb].
+    destruct (opt_str_eqb (a_hash (m_ann ms)) (hash_string c st ids)) eqn:E; [|split; reflexivity].
+    cbn [s_ann]. destruct HI as [Hn|[st0 [ids0 [Hh Hc]]]].
+    - rewrite Hn in E. discriminate.
+    - split; [|apply HO; congruence].
+      specialize (Hsep st0 ids0 Hh Hc). unfold hash_separates in Hsep.
+      rewrite Hh in E. unfold opt_str_eqb in E. rewrite E in Hsep. cbn in Hsep.
+      rewrite Hc. apply cache_eqb_eq. exact Hsep. }
+  destruct Main as [M1 M2]. repeat split; auto; intros; rewrite M1; reflexivity.
+Qed.
